@@ -5,6 +5,7 @@
   File-handle management is an OS-level fact observed by the harness (`open` wrapped); the model exposes it as a trace.
 -/
 import VerdeModel.Model.Surfer
+import VerdeModel.Gen.IO
 import VerdeModel.Lemmas.Num
 import VerdeModel.Lemmas.MinMax
 namespace Verde.C19
@@ -180,5 +181,55 @@ example : (loadSurfer ⟨"DSAA", [.int 2, .int 2], [.int 0, .int 1], [.int 0, .i
 example : (loadSurfer ⟨"DSAA", [.int 3, .int 2], [.int 0, .int 10], [.int 0, .int 20], [.int 1, .num (13/2)],
     [[1, 2, 3], [4, 5, 13/2]], true, surferBlank⟩).1 = .error .ioError := by
   decide +kernel
+
+/-! ### Bridges: header parsing and integrity check regenerated from source -/
+
+/-- **Bridge.**  `_read_surfer_header` as regenerated STATEMENT BY STATEMENT from /repo's source text on every run — five `readline()` calls
+    in the code's order (id, counts, south/north, west/east, data range), `int(i.strip())` / `float(i.strip())` over the split tokens, the
+    two-value unpackings, and `region = (west, east, south, north)` — equals the model's `parseHeader` for every file (any tokens,
+    including non-numbers and wrong counts: the same ValueError), whatever else the lines contain and whatever follows them. -/
+theorem gen_read_surfer_header_eq_model (f : SurferFile) (s2 s3 s4 s5 : String) (rest : List SLine) :
+    Gen.readSurferHeader (⟨f.gridId, []⟩ :: ⟨s2, f.shapeLine⟩ :: ⟨s3, f.nsLine⟩ :: ⟨s4, f.weLine⟩ :: ⟨s5, f.rangeLine⟩ :: rest)
+      = (parseHeader f).map fun h => (f.gridId, h.shape, (h.west, h.east, h.south, h.north), h.range) := by
+  unfold Gen.readSurferHeader parseHeader
+  simp only [readlineS, intsE, floatsE, bind, Except.bind, pure, Except.pure, Except.map]
+  cases h1 : optOk (f.shapeLine.mapM Tok.asInt) with
+  | error e => rfl
+  | ok sh =>
+    simp only []
+    cases h2 : f.nsLine.mapM Tok.asNum with
+    | none => simp [optOk, twoOk]
+    | some ns =>
+      match ns with
+      | [] => simp [optOk, twoOk, unpack2]
+      | [a] => simp [optOk, twoOk, unpack2]
+      | a :: b :: c :: r => simp [optOk, twoOk, unpack2]
+      | [a, b] =>
+        simp only [optOk, twoOk, unpack2]
+        cases h3 : f.weLine.mapM Tok.asNum with
+        | none => simp
+        | some we =>
+          match we with
+          | [] => simp
+          | [a] => simp
+          | a :: b :: c :: r => simp
+          | [c, d] =>
+            simp only []
+            cases h4 : f.rangeLine.mapM Tok.asNum <;> simp
+
+/-- **Bridge.**  `_check_surfer_integrity` as regenerated from /repo's source text on every run (`field.shape != shape` → IOError,
+    `[field.min(), field.max()]`, `not np.allclose(field_range, data_range)` → IOError) equals the model's two integrity guards for every
+    body, value list, header shape and header range (a one-value range broadcasts; other lengths are a ValueError in both). -/
+theorem gen_check_surfer_integrity_eq_model (body : List (List Rat)) (vals : List Rat) (shape : List Int) (range : List Rat) :
+    Gen.checkSurferIntegrity (fieldShape body) vals shape range
+      = (do guardE (decide (fieldShape body = shape)) .ioError; rangeCheck range vals) := by
+  unfold Gen.checkSurferIntegrity guardE rangeCheck
+  by_cases hs : fieldShape body = shape
+  · simp only [hs, ne_eq, not_true_eq_false, if_false, decide_true, if_true, bind, Except.bind, minE, maxE, optOk]
+    cases h1 : listMin vals <;> cases h2 : listMax vals <;> rcases range with _ | ⟨a, _ | ⟨b, _ | ⟨c, r⟩⟩⟩ <;>
+      simp [allclose2E, throw, throwThe, MonadExceptOf.throw, pure, Except.pure]
+    all_goals (split_ifs <;> simp_all)
+  · have hne : fieldShape body ≠ shape := hs
+    simp [hs, hne, bind, Except.bind, throw, throwThe, MonadExceptOf.throw]
 
 end Verde.C19
